@@ -951,17 +951,21 @@ def run_cases(ck, cases, exe_model, impl_model_exe=None):
     nk = core.harness_bin("nkeval")
     ml = [model_line(c) for c in cases]
     rl = [reach_line(c) if c["pos"] and c["k"][0] != "kfun" else "reach\tnone\t(karr)\tid\t0" for c in cases]
-    rc0, mod_out, e0 = core.run_sharded(exe_model, [], ml)
-    rc3, reach_out, e3 = core.run_sharded(exe_model, [], rl)
+    tmo = 1800 if len(cases) < 5000 else 6 * 3600      # the thorough tier may share the machine
+    rc0, mod_out, e0 = core.run_sharded(exe_model, [], ml, timeout=tmo)
+    rc3, reach_out, e3 = core.run_sharded(exe_model, [], rl, timeout=tmo)
     if impl_model_exe:
-        rc1, imp_out, e1 = core.run_sharded(impl_model_exe, [], ml)
-        rc2, raw_out, e2 = core.run_sharded(impl_model_exe, [], [model_line(c, "none").replace("rundom\t", "run\t") for c in cases])
+        rc1, imp_out, e1 = core.run_sharded(impl_model_exe, [], ml, timeout=tmo)
+        rc2, raw_out, e2 = core.run_sharded(impl_model_exe, [], [model_line(c, "none").replace("rundom\t", "run\t") for c in cases], timeout=tmo)
     else:
-        rc1, imp_out, e1 = core.run_sharded(nk, [], [impl_line(c, True) for c in cases])
-        rc2, raw_out, e2 = core.run_sharded(nk, [], [impl_line(c, False) for c in cases])
+        rc1, imp_out, e1 = core.run_sharded(nk, [], [impl_line(c, True) for c in cases], timeout=tmo)
+        rc2, raw_out, e2 = core.run_sharded(nk, [], [impl_line(c, False) for c in cases], timeout=tmo)
     if rc0 or rc1 or rc2 or rc3:
         ck.obligation("correspondence-run", "internal", False, "rc=%s/%s/%s/%s %s %s %s %s" % (rc0, rc1, rc2, rc3, e0[-300:], e1[-300:], e2[-300:], e3[-300:]))
     for c, m, a, u, r in zip(cases, mod_out, imp_out, raw_out, reach_out):
+        if "<missing>" in (m, a, u, r):
+            ck.count("missing_outputs")       # a shard died / timed out: reported by correspondence-run above
+            continue
         a, u = canon_impl(a), canon_impl(u)
         viol = violates(c)
         pr = py_reach(c["k"], c["o"], c["pos"]) if c["pos"] else False
@@ -1062,11 +1066,15 @@ def run(ck):
     ck.coverage["corpus_cases"] = ncorpus
     ck.coverage["programs_evaluated_on_nickel"] = 2 * len(cases)
     ck.coverage["rule"] = ("case = container literal (array 1-4 / array of arrays / record 1-3 fields / function) with at most one "
-                           "special component (\"bad\" 60%, std.fail_with 25%, none 15%) at a uniformly chosen position, annotation "
+                           "special component (\"bad\" 60%, std.fail_with 25%, none 15%) at a uniformly chosen position; annotation "
                            "(Array Number, Array (Array Number), {_ : Number}, {_ | Number}, {a : Number,..}, {a | Number, ..} open/closed, "
-                           "Number -> Number), observer pipeline of 1-3 type-directed stages (7% deliberately out of bounds / missing "
-                           "field); non-trivial = the special component violates or fails; distinct by exact text")
-    ck.coverage["partial"] = "see level_note; sort/generate/partition and optional fields are not generated"
+                           "Number -> Number) written inline or bound once and shared with the literals of the pipeline (50%); entry "
+                           "`(v | T)` or, for 1/6 of the arrays, through the domain of a function contract; observer pipeline of 1-3 "
+                           "type-directed stages out of 56 observers (primitives, stdlib combinators, compiled patterns, ==, &, "
+                           "serialize/deserialize, deep_seq), ~7% deliberately out of bounds / missing field; each program is run "
+                           "annotated and unannotated on nickel, and on the extracted model; non-trivial = the special component "
+                           "violates or fails; distinct by exact text")
+    ck.coverage["partial"] = "see level_note; generate/partition/zip_with, optional fields, nested records and multi-error programs are not generated"
     ck.trusted += ["extraction: ExtrOcamlBasic, ExtrOcamlNativeString", "harness bin nkeval (harness/src/eval.rs)",
                    "generator, Nickel printer and reach table in checks/c08.py (SplitMix64, VERIF_SEED)"]
     ck.assumptions += ["stdlib static-type contracts (sealing) are transparent (C11)",
